@@ -1,5 +1,5 @@
 """C11 — navigation always rests on a node of the current expression."""
-import json, re
+import html, json, re
 import xml.etree.ElementTree as ET
 import core, mml
 from core import log
@@ -69,6 +69,12 @@ def tries_from_log(entries, impl_err):
 
 def norm_state(s):
     return {"positions": s.get("positions"), "commands": s.get("commands"), "markers": s.get("markers"), "mode": s.get("mode"), "overview": s.get("overview")}
+
+
+def first_id(xml):
+    """id of the outermost element of a serialized MathML fragment"""
+    m = re.match(r"\s*<[A-Za-z][^>]*?\sid=(['\"])(.*?)\1", xml or "")
+    return html.unescape(m.group(2)) if m else None
 
 
 def run(ctx):
@@ -149,6 +155,9 @@ def run(ctx):
                 evals += 1
                 if rep[3].get("v") != [root, 0] or real.get("positions") != [] or any(m[0] != ILLEGAL for m in real.get("markers", [])):
                     oracle_fail.append({"why": "set_mathml did not put navigation back on the whole expression / forget the old expression", "nav_id": rep[3].get("v"), "state": real, "trace": trace[-12:] + [[kind, arg]]})
+                got = rep[4].get("v") if rep[4].get("r") == "ok" else None
+                if got is None or first_id(got[0]) != root or got[1] != 0:
+                    oracle_fail.append({"why": "after set_mathml get_navigation_mathml does not return the whole expression at offset 0", "reply": {k: str(v)[:200] for k, v in rep[4].items()}, "trace": trace[-12:] + [[kind, arg]]})
                 trace.append([kind, arg])
                 if synced and norm_state(real) != norm_state(mstate):
                     disagreements.append({"after": [kind, arg[:80]], "impl": norm_state(real), "model": norm_state(mstate), "trace": trace[-12:]})
@@ -174,6 +183,10 @@ def run(ctx):
             if r0.get("r") in ("panic", "abort", "timeout"):
                 # crashes are C08's subject: recorded here, decided there (the C08 check replays navigation walks itself)
                 panics.append({"why": "navigation call " + r0.get("r"), "at": r0.get("at", ""), "msg": r0.get("msg", "")[:200], "trace": trace[-12:]})
+                # ... but what the crashed command leaves behind is C11's: the position must still be a node of the expression, with retrievable MathML
+                if r0.get("r") == "panic" and (nid.get("r") != "ok" or nid["v"][0] not in ids or nmml.get("r") != "ok"):
+                    oracle_fail.append({"why": "after a navigation command that crashed the position is no longer a retrievable node of the expression", "nav_id": {k: str(v)[:200] for k, v in nid.items()},
+                                        "nav_mathml": {k: str(v)[:120] for k, v in nmml.items()}, "trace": trace[-12:]})
                 break
             # ---- monitor of the rules assumption (TryOk)
             for e in logv:
@@ -208,6 +221,8 @@ def run(ctx):
                 oracle_fail.append({"why": "current navigation id is not a node of the current expression", "nav_id": nid, "trace": trace[-12:]})
             elif nmml.get("r") != "ok":
                 oracle_fail.append({"why": "get_navigation_mathml failed", "reply": {k: str(v)[:200] for k, v in nmml.items()}, "trace": trace[-12:]})
+            elif [first_id(nmml["v"][0]), nmml["v"][1]] != nid["v"]:
+                oracle_fail.append({"why": "get_navigation_mathml returns another node / offset than get_navigation_mathml_id", "nav_mathml": [first_id(nmml["v"][0]), nmml["v"][1]], "nav_id": nid["v"], "trace": trace[-12:]})
             if kind == "key" and 0x30 <= arg[0] <= 0x39 and arg[2] and not arg[1] and r0.get("r") == "ok" and before and before.get("r") == "ok":
                 marks[arg[0] - 0x30] = before["v"]        # control + digit sets that place marker
             if kind == "cmd" and r0.get("r") == "ok" and before and before.get("r") == "ok" and nid.get("r") == "ok":
